@@ -25,6 +25,9 @@ ALPHA = {
 }
 
 
+FOREIGN = {"BpiI": "SapI", "SapI": "BpiI", "BspD6I": "BpiI"}      # enzyme of the extra module in mode `foreign` (other overhang length)
+
+
 def bounds(tier):
     if tier == "quick":
         return dict(modes="k<=2 spaces: ids distinct / shared / default, identical twins, fully annotated participants, participants stored rotated and half of them in lower case; "
@@ -37,7 +40,7 @@ def bounds(tier):
 
 
 def goals(tier):
-    return ["three-modules", "records-sharing-an-id", "annotated-participants", "rotated-and-respelled-participants", "anonymous-plasmids-of-equal-length", "several-unused-modules-sharing-an-id", "identical-sequence-twins", "product", "error-InvalidSequence", "error-DuplicateModules", "error-MissingModule", "palindromic-start-on-chain",
+    return ["three-modules", "records-sharing-an-id", "annotated-participants", "rotated-and-respelled-participants", "anonymous-plasmids-of-equal-length", "module-of-another-enzyme-left-over", "several-unused-modules-sharing-an-id", "identical-sequence-twins", "product", "error-InvalidSequence", "error-DuplicateModules", "error-MissingModule", "palindromic-start-on-chain",
             "self-loop-module", "unused-module", "revcomp-starts", "equal-starts", "several-reasons"]
 
 
@@ -169,6 +172,21 @@ def evaluate(st, scn):
     elif idmode == "decorated":
         v = V(gen.contained(vs[0], "annotated", "vec"))
         ents = [M(gen.contained(m[0], "annotated", "mod%d" % i)) for i, m in enumerate(ms)]
+    elif idmode == "foreign":
+        # one more module, released by ANOTHER enzyme whose sticky ends have another length (so it can pair with nothing): the
+        # overhang graph says it is simply left over -- or that the outcome is what it is without it
+        fenz = FOREIGN[enz]
+        fw = ALPHA[fenz]
+        fm = mod_string(fenz, fw[0], fw[2], 7)
+        if fm is None:
+            st.filtered += 1
+            return None
+        FM = gen.generic_classes(fenz)[0]
+        ents = [M(gen.crec(m[0], "mod%d" % i)) for i, m in enumerate(ms)] + [FM(gen.crec(fm[0], "foreign"))]
+        mods = mods + [(fw[0], fw[2])]
+        ms = ms + [fm]
+        model = rm.assembly_outcome(vup, vdown, mods)
+        perm = (list(perm) + [len(mods) - 1]) if sum(perm) % 2 == 0 else ([len(mods) - 1] + list(perm))
     elif idmode == "distinct":
         ents = [M(gen.crec(m[0], "mod%d" % i)) for i, m in enumerate(ms)]
     elif idmode == "same":
@@ -228,9 +246,9 @@ def evaluate(st, scn):
 def idmodes(sp, k):
     """identifier assignments of the module records: distinct ids everywhere; for the k<=2 spaces also one shared id and no id at all"""
     if sp["kmax"] <= 2 and k >= 2:
-        return ["distinct", "same", "default", "decorated", "rotated", "anonymous", "twins"]
+        return ["distinct", "same", "default", "decorated", "rotated", "anonymous", "foreign", "twins"]
     if sp["kmax"] <= 2:
-        return ["distinct", "decorated", "rotated", "anonymous"]
+        return ["distinct", "decorated", "rotated", "anonymous", "foreign"]
     if k >= 2:
         return ["distinct", "twins"]
     return ["distinct"]
@@ -266,6 +284,9 @@ def run_unit(unit, st, tier):
                 elif idmode == "anonymous":
                     scn["ids"] = idmode
                     st.goal("anonymous-plasmids-of-equal-length")
+                elif idmode == "foreign":
+                    scn["ids"] = idmode
+                    st.goal("module-of-another-enzyme-left-over")
                 elif idmode != "distinct":
                     scn["ids"] = idmode
                     st.goal("records-sharing-an-id")
